@@ -1836,6 +1836,8 @@ def make_data(
     "nvmax_pad": sizes["nvmax_pad"],
     "njmax_pad": sizes["njmax_pad"],
     "njmax_nnz": njmax_nnz,
+    # delay / interval buffers start as mj_resetData leaves them (time stamps before t = 0, zero samples)
+    "history": wp.array(np.tile(mjd.history, (nworld, 1)), shape=(nworld, mjm.nhistory), dtype=float),
     # world body
     "xquat": wp.array(np.tile(mjd.xquat, (nworld, 1)), shape=(nworld, mjm.nbody), dtype=wp.quat),
     "xmat": wp.array(np.tile(mjd.xmat, (nworld, 1)), shape=(nworld, mjm.nbody), dtype=wp.mat33),
@@ -2551,6 +2553,56 @@ def reset_data(m: types.Model, d: types.Data, reset: Optional[wp.array] = None):
     overflow_out[worldid] = 0
 
   @wp.kernel(module="unique", enable_backward=False, grid_stride=False)
+  def reset_history(
+    # Model:
+    nu: int,
+    opt_timestep: wp.array[float],
+    actuator_history: wp.array[wp.vec2i],
+    actuator_historyadr: wp.array[int],
+    sensor_dim: wp.array[int],
+    sensor_history: wp.array[wp.vec2i],
+    sensor_historyadr: wp.array[int],
+    sensor_interval: wp.array[wp.vec2],
+    # In:
+    reset_in: wp.array[bool],
+    # Data out:
+    history_out: wp.array2d[float],
+  ):
+    # same initial buffers as mj_resetData: [user, cursor, times, values] per actuator / sensor
+    worldid, objid = wp.tid()
+
+    if wp.static(reset is not None):
+      if not reset_in[worldid]:
+        return
+
+    timestep = opt_timestep[worldid % opt_timestep.shape[0]]
+    if objid < nu:
+      nsample = actuator_history[objid][0]
+      adr = actuator_historyadr[objid]
+      dim = 1
+      period = timestep
+      user = float(0.0)
+    else:
+      sensorid = objid - nu
+      nsample = sensor_history[sensorid][0]
+      adr = sensor_historyadr[sensorid]
+      dim = sensor_dim[sensorid]
+      period = timestep
+      if sensor_interval[sensorid][0] > 0.0:
+        period = sensor_interval[sensorid][0]
+      user = -period
+
+    if nsample <= 0 or adr < 0:
+      return
+
+    history_out[worldid, adr] = user
+    history_out[worldid, adr + 1] = float(nsample - 1)
+    for i in range(nsample):
+      history_out[worldid, adr + 2 + i] = -float(nsample - i) * period
+    for i in range(nsample * dim):
+      history_out[worldid, adr + 2 + nsample + i] = 0.0
+
+  @wp.kernel(module="unique", enable_backward=False, grid_stride=False)
   def reset_mocap(
     # Model:
     body_mocapid: wp.array[int],
@@ -2698,6 +2750,24 @@ def reset_data(m: types.Model, d: types.Data, reset: Optional[wp.array] = None):
     inputs=[reset_input],
     outputs=[d.M],
   )
+
+  if m.nhistory:
+    wp.launch(
+      reset_history,
+      dim=(d.nworld, m.nu + m.nsensor),
+      inputs=[
+        m.nu,
+        m.opt.timestep,
+        m.actuator_history,
+        m.actuator_historyadr,
+        m.sensor_dim,
+        m.sensor_history,
+        m.sensor_historyadr,
+        m.sensor_interval,
+        reset_input,
+      ],
+      outputs=[d.history],
+    )
 
   # set mocap_pos/quat = body_pos/quat for mocap bodies
   wp.launch(
